@@ -51,7 +51,8 @@ struct Result {
   bool used_stdin = false, stream_ended = false; long reads_after_end = 0, underflows = 0; size_t delivered = 0;
 };
 
-// args: argv[1..]; "@Fk" is replaced by the path of the k-th memfd output file, "@IN" by a memfd holding `input`.
+// args: argv[1..]; "@Fk" is replaced by the path of the k-th memfd output file, "@IN" by a memfd holding `input`,
+// "@X" by a path that cannot be opened, "@FULL" by /dev/full.
 // When the arguments contain "-" the input is delivered on the simulated std::cin with the given chunk plan.
 inline Result run_gama_local(const std::vector<std::string>& args_in, const std::string& input,
                              const std::vector<size_t>& chunk_lens, bool error_at_end)
@@ -60,7 +61,9 @@ inline Result run_gama_local(const std::vector<std::string>& args_in, const std:
   std::vector<MemFile> files; MemFile infile;
   std::vector<std::string> args = args_in;
   for (auto& a : args) {
-    if (a.size() >= 3 && a[0] == '@' && a[1] == 'F') { size_t k = (size_t)atoi(a.c_str() + 2); while (files.size() <= k) { files.emplace_back(); files.back().create(); } a = files[k].path; }
+    if (a.size() >= 3 && a[0] == '@' && a[1] == 'F' && a != "@FULL") { size_t k = (size_t)atoi(a.c_str() + 2); while (files.size() <= k) { files.emplace_back(); files.back().create(); } a = files[k].path; }
+    else if (a == "@X") a = "/nonexistent-verif-dir/out";        // file-layer fault: the output cannot be opened
+    else if (a == "@FULL") a = "/dev/full";                       // file-layer fault: every write fails (disk full)
     else if (a == "@IN") { if (infile.fd < 0) infile.create(input); a = infile.path; }
     else if (a == "-") R.used_stdin = true;
   }
